@@ -31,3 +31,12 @@ Print Assumptions C07_line_is_layout_text.
 Theorem C07_writer_shape_recognised : Theory.VerifyProps.ob_writer_shape = true.
 Proof. exact Theory.VerifyProps.writer_shape. Qed.
 Print Assumptions C07_writer_shape_recognised.
+
+(* fixed-width layout: every element occupies exactly its width, so a tag's segment has one length,
+   whatever the canonical values (all 56 regular tags; {3600} is a recorded finding) *)
+From Wire Require Import Theory.FixedLength Theory.CodecTags.
+
+Theorem C07_fixed_layout_segment_length_is_constant : forall d v, layout_ok d = true -> canonical_tag d v = true ->
+  exists line, format_tag d false v = Some line /\ length line = fixed_len (recover d).
+Proof. exact fixed_layout_segment_length. Qed.
+Print Assumptions C07_fixed_layout_segment_length_is_constant.
